@@ -17,6 +17,19 @@ visit the candidates: they travel in a ``set``, so the order depends on the hash
 read back as exactly one argument naming one of the entries (a failing completion that is literally
 the single-entry completion of part 1 is not counted twice).
 
+Part 1c (cursor after a closed quote).  Part 1 also types every prefix as a CLOSED literal with the
+cursor right after the closing quote (``rec 'my'<Tab>``; names up to length 2): the path completer's
+own prefix length already spans the closing quote and the pipeline (``_format_completion``) must not
+widen it again - the command word and the blank before the argument have to survive.
+
+Part 1d (hostile parent).  A directory with a hostile name (one, thorough: two hostile symbols before
+/ between / after plain letters) holding one file, reached on the routes where the completer expands
+the PARENT itself so that the user never typed (or quoted) it: ``$D/f`` (environment variable),
+the plain letters of the directory + ``/f`` (subsequence matching, on by default) and ``~/f`` with
+``$HOME`` = that directory.  Oracle: exactly one argument that denotes the file.  (CDPATH candidates
+are only produced for ``cd`` and are relative to the CDPATH entry, which never appears in the
+inserted text; fuzzy matching is off by default: both are not explored.)
+
 Part 2 (analyser totality).  ``CompletionContextParser.parse(text, cursor)`` for ALL strings up to
 a length bound over a 20-symbol alphabet x every cursor position: never raises, and the context's
 prefix / suffix (command context) or code slice (python context) reproduce the text around the
@@ -1227,7 +1240,7 @@ def run(ctx):
         distinct_nontrivial=tot["execs"] + totm["execs"] + t2["strings"] + t3["strings"],
         rule=(
             f"part 1: all {len(names)} names of length <= {maxlen} over {len(ALPHA1)} symbols (+{len(KEYWORD_NAMES)} keyword names) x {{file, dir}} x "
-            f"{len(STYLES)} opening-quote styles x every proper typed prefix (literal and backslash-escaped spelling) x {{no closing quote, closing quote after the cursor, cursor right after the closed quote (names of length <= " + str(AFTER_MAXLEN) + ")}}; "
+            f"{len(STYLES)} opening-quote styles x every proper typed prefix (literal and backslash-escaped spelling) x {{no closing quote, closing quote after the cursor, cursor right after the closed quote (names of length <= " + str(AFTER_MAXLEN) + ")}; "
             "a case is admitted when the real CompletionContextParser analyses the cursor as the end of the second word of the command and the completer's own partial-string unquoting reads the whole typed word as a prefix of the name; every completion returned by the real "
             "Completer.complete (path completer only) is spliced and executed; non-trivial = distinct (name, kind, spliced line) executions that reached the argv comparison. "
             f"part 1b: all {len(sets_)} directories holding 2 or 3 entries out of a pool of {len(pool)} names (one per quoting class: plain, $, backslash, each quote, control character, blank, ...) x "
